@@ -79,6 +79,8 @@ type Gen struct {
 	// through one process, which is what size-bounded caches need to start
 	// evicting.
 	Soak string
+	// SoakVers makes every run of the batch VERS-heavy with many distinct ranges.
+	SoakVers bool
 	// Lifetimes enables the garbage-collection fault (the tree under test uses
 	// finalizers, cleanups, weak pointers or unique handles).
 	Lifetimes bool
@@ -294,6 +296,7 @@ func (g *Gen) Spec(seed uint64, index int) Spec {
 	nEco := 1 + p.n(3)
 	used := map[string]bool{}
 	fams := map[string]*family{}
+	coldFam := map[string]bool{}
 	sharedBase := ""
 	forced := g.names[index%len(g.names)]
 	if g.Soak != "" && g.class[g.Soak] != nil {
@@ -326,7 +329,19 @@ func (g *Gen) Spec(seed uint64, index int) Spec {
 				sharedBase = f.cands[0]
 			}
 			fams[n] = &f
-			ep.Versions = append(ep.Versions, f.vs...)
+			if p.chance(1, 2) && len(f.vs) >= 4 {
+				// cold constructors: only every third spelling becomes a pool
+				// member (parsed by the main goroutine before the tasks start);
+				// the others reach the library for the first time from the tasks
+				for i, v := range f.vs {
+					if i%3 == 1 {
+						ep.Versions = append(ep.Versions, v)
+					}
+				}
+				coldFam[n] = true
+			} else {
+				ep.Versions = append(ep.Versions, f.vs...)
+			}
 			ep.Ranges = append(ep.Ranges, f.rs...)
 			nv = p.rng(0, 3)
 			if len(ep.Versions) < 2 {
@@ -381,10 +396,33 @@ func (g *Gen) Spec(seed uint64, index int) Spec {
 			}
 		}
 	}
+	if g.SoakVers {
+		// VERS soak: well over a hundred distinct ranges per run, fifty runs per
+		// process, while the corpus ranges keep recurring
+		for len(versPairs) < 400 {
+			sch := g.schemes[p.n(len(g.schemes))]
+			en, ok := schemeEco[sch]
+			if !ok || g.class[en] == nil || len(g.class[en].versions) == 0 {
+				continue
+			}
+			f := g.family(p, en)
+			for k := 0; k < 6; k++ {
+				versPairs = append(versPairs, g.versSynth(p, en, &f)...)
+			}
+			if len(f.vs) == 0 {
+				versPairs = append(versPairs, [2]string{pickS(p, g.versBy[sch]), pickS(p, g.class[en].versions)})
+			}
+		}
+	}
 
 	// hot strings for constructors: shared between tasks on purpose
 	type hot struct{ v, r []string }
 	hots := make([]hot, len(sp.Ecos))
+	type aliasOp struct {
+		e int
+		s string
+	}
+	var aliasOpen []aliasOp
 	for e, ep := range sp.Ecos {
 		ec := g.class[ep.Name]
 		for i := 0; i < 3; i++ {
@@ -399,6 +437,38 @@ func (g *Gen) Spec(seed uint64, index int) Spec {
 		}
 		if f := fams[ep.Name]; f != nil {
 			hots[e].v = append(hots[e].v[:1], f.cands[:min(len(f.cands), 5)]...)
+			if coldFam[ep.Name] {
+				hots[e].v = append(hots[e].v[:0], f.cands[:min(len(f.cands), 9)]...)
+				// an alias group: spellings a parser typically cleans to one text
+				// (prefix v / =, padding); none of them is a pool member
+				inPool := map[string]bool{}
+				for _, v := range ep.Versions {
+					inPool[strings.TrimSpace(v)] = true
+				}
+				eco := EcoByName(ep.Name)
+				for tries := 0; tries < 6 && len(aliasOpen) == 0; tries++ {
+					c := strings.TrimSpace(pickS(p, f.vs))
+					if c == "" || inPool[c] {
+						continue
+					}
+					core := strings.TrimLeft(c, "vV=")
+					var grp []string
+					for _, a := range []string{core, "v" + core, "=" + core, " " + core, "V" + core} {
+						if !inPool[strings.TrimSpace(a)] && tryV(eco, a) {
+							grp = append(grp, a)
+						}
+					}
+					if len(grp) >= 2 {
+						if len(grp) > 3 {
+							grp = grp[:3]
+						}
+						for _, a := range grp {
+							aliasOpen = append(aliasOpen, aliasOp{e, a})
+							hots[e].v = append(hots[e].v, a)
+						}
+					}
+				}
+			}
 			if len(f.rs) > 0 {
 				hots[e].r = append(hots[e].r[:1], f.rs...)
 			}
@@ -419,7 +489,11 @@ func (g *Gen) Spec(seed uint64, index int) Spec {
 	if wide {
 		for e, ep := range sp.Ecos {
 			ec := g.class[ep.Name]
-			for len(hots[e].v) < 40 {
+			nh := 40
+			if g.Soak != "" {
+				nh = 110
+			}
+			for len(hots[e].v) < nh {
 				s := pickS(p, ec.versions)
 				if p.chance(1, 4) {
 					s = mutate(p, s)
@@ -458,6 +532,10 @@ func (g *Gen) Spec(seed uint64, index int) Spec {
 	if wide {
 		base = []int{1, 1, 0, 0, 0, 12, 6, 2, 0}
 	}
+	if g.SoakVers {
+		base = []int{1, 1, 0, 0, 0, 1, 1, 30, 0}
+		wide = true
+	}
 	w := make([]int, len(kinds))
 	tot := 0
 	for i := range kinds {
@@ -495,6 +573,7 @@ func (g *Gen) Spec(seed uint64, index int) Spec {
 		}
 		return p.n(n)
 	}
+	versNext := 0
 	genOp := func() Op {
 		for tries := 0; tries < 20; tries++ {
 			x := p.n(tot)
@@ -511,6 +590,12 @@ func (g *Gen) Spec(seed uint64, index int) Spec {
 					continue
 				}
 				vp := versPairs[p.n(len(versPairs))]
+				if g.SoakVers {
+					// walk through the pairs so that as many distinct ranges as
+					// possible pass through the process
+					vp = versPairs[versNext%len(versPairs)]
+					versNext += 2
+				}
 				return Op{K: KVers, S: vp[0], T: vp[1]}
 			}
 			if len(sp.Ecos) == 0 {
@@ -590,12 +675,36 @@ func (g *Gen) Spec(seed uint64, index int) Spec {
 	if wide {
 		maxOps = 40
 	}
+	soaking := g.Soak != "" || g.SoakVers
+	if soaking {
+		nt = p.rng(5, maxTasks)
+	}
+	// alias opening (cold families): every task starts by constructing the
+	// spellings of one alias group, in its own order, so that the first parse
+	// of texts the library may treat as one key overlaps between tasks
+	var opening []Op
+	if len(aliasOpen) > 0 {
+		for _, ao := range aliasOpen {
+			opening = append(opening, Op{K: KNewV, E: ao.e, S: ao.s, A: pickV(ao.e), R: pickR(ao.e)})
+		}
+	}
 	total := 0
 	for t := 0; t < nt; t++ {
 		n := p.rng(1, maxOps)
-		prog := make([]Op, n)
-		for i := range prog {
-			prog[i] = genOp()
+		if soaking {
+			n = maxOps
+		}
+		prog := make([]Op, 0, n+len(opening))
+		if len(opening) > 0 {
+			o := append([]Op(nil), opening...)
+			for i := len(o) - 1; i > 0; i-- {
+				j := p.n(i + 1)
+				o[i], o[j] = o[j], o[i]
+			}
+			prog = append(prog, o...)
+		}
+		for i := 0; i < n; i++ {
+			prog = append(prog, genOp())
 		}
 		// mirror: some tasks replay another task's program so that the very same
 		// operation runs on the very same objects in two tasks
